@@ -71,6 +71,7 @@ type sshSim struct {
 	out     io.Writer
 	trace   *os.File
 	ev      *os.File
+	tl      *os.File // machine readable timeline: W <hex> | R <hex>|PWOK | S (silent from here) | X (gone)
 	reads   int
 	faultAt int
 	fault   string
@@ -84,6 +85,7 @@ func (s *sshSim) write(text string) {
 	}
 	text = strings.ReplaceAll(text, "\n", "\r\n")
 	s.trace.WriteString(text) // first: the run may be over as soon as the client has read the text
+	fmt.Fprintf(s.tl, "W %s\n", hx(text))
 	io.WriteString(s.out, text)
 }
 
@@ -93,9 +95,11 @@ func (s *sshSim) readLine(isPassword bool) (string, bool) {
 		switch s.fault {
 		case "close":
 			fmt.Fprintf(s.ev, "fault close at read %d\n", s.reads)
+			fmt.Fprintf(s.tl, "X\n")
 			os.Exit(0)
 		case "silence":
 			fmt.Fprintf(s.ev, "fault silence at read %d\n", s.reads)
+			fmt.Fprintf(s.tl, "S\n")
 			s.silent = true
 		}
 	}
@@ -104,6 +108,11 @@ func (s *sshSim) readLine(isPassword bool) (string, bool) {
 		return "", false
 	}
 	line = strings.TrimSuffix(line, "\n")
+	if line == s.pw && s.pw != "" {
+		fmt.Fprintf(s.tl, "R PWOK\n")
+	} else {
+		fmt.Fprintf(s.tl, "R %s\n", hx(line))
+	}
 	if isPassword {
 		if line == s.pw {
 			fmt.Fprintf(s.ev, "read %d: <PASSWORD-OK>\n", s.reads)
@@ -174,6 +183,7 @@ func sshSimMain(args []string) int {
 	}
 	s.trace, _ = os.OpenFile(file+".out", os.O_CREATE|os.O_WRONLY|os.O_APPEND, 0644)
 	s.ev, _ = os.OpenFile(file+".ev", os.O_CREATE|os.O_WRONLY|os.O_APPEND, 0644)
+	s.tl, _ = os.OpenFile(file+".tl", os.O_CREATE|os.O_WRONLY|os.O_APPEND, 0644)
 	text := string(data)
 	locs := sshDelim.FindAllStringSubmatchIndex(text, -1)
 	preamble := text
@@ -520,6 +530,7 @@ type runOutcome struct {
 	addr           string
 	simOut         string // SSH: bytes the simulated device wrote
 	simEv          string
+	simTl          string
 	logDir         string
 }
 
@@ -632,6 +643,28 @@ func (e *c17Env) execRun(c *runCase, no int) *runOutcome {
 		})
 	case "ASA", "IOS", "Linux":
 		sc := map[string]string{"ASA": scASA, "IOS": scIOS, "Linux": scLinux}[c.Dev]
+		// flavours of the login dialogue (bits 1-2 of Variant)
+		switch fl := (c.Variant / 2) % 4; {
+		case fl == 1 && c.Dev == "ASA":
+			// known host key, privileged at once, terminal already set up
+			sc = strings.Replace(sc, "Are you sure you want to continue connecting (yes/no)?<!>\n", "", 1)
+			sc = strings.Replace(sc, "router>\n# enable\nPassword: <?>\n", "router#\n", 1)
+			sc = strings.Replace(sc, "pager lines 24\n", "no pager\n", 1)
+			sc = strings.Replace(sc, "Width = 80, no monitor", "Width = 511, no monitor", 1)
+		case fl == 2 && c.Dev == "ASA":
+			sc = strings.Replace(sc, "# show hostname\nrouter\n", "# show hostname\nother-fw\n", 1)
+		case fl == 1 && c.Dev == "IOS":
+			sc = strings.Replace(sc, "router>\n# enable\nPassword:<?>\n", "router#\n", 1)
+		case fl == 2 && c.Dev == "IOS":
+			sc = strings.Replace(sc, "# enable\nPassword:<?>\n", "", 1) // enable without password
+		case fl == 3 && c.Dev == "IOS":
+			sc = strings.Replace(sc, "Enter Password:<?>", "The authenticity of host 'router' can't be established.\nAre you sure you want to continue connecting (yes/no)? <!>\nEnter Password: <?>", 1)
+		case fl == 1 && c.Dev == "Linux":
+			// public key login: no question, no password prompt
+			sc = sc[strings.Index(sc, "Last login:"):]
+		case fl == 2 && c.Dev == "Linux":
+			sc = strings.Replace(sc, "# hostname -s\nrouter\n", "# hostname -s\nother\n", 1)
+		}
 		same := map[string]string{"ASA": nsASAsame, "IOS": nsIOSsame, "Linux": nsLinuxSame}[c.Dev]
 		chg := map[string]string{"ASA": nsASAchg, "IOS": nsIOSchg, "Linux": nsLinuxChg}[c.Dev]
 		netspoc = same
@@ -749,6 +782,8 @@ func (e *c17Env) execRun(c *runCase, no int) *runOutcome {
 		out.simOut = string(b)
 		b, _ = os.ReadFile(filepath.Join(side, "scenario.ev"))
 		out.simEv = string(b)
+		b, _ = os.ReadFile(filepath.Join(side, "scenario.tl"))
+		out.simTl = string(b)
 	}
 	filepath.Walk(work, func(p string, info os.FileInfo, err error) error {
 		if err == nil && info.Mode().IsRegular() {
@@ -1082,18 +1117,114 @@ func (e *c17Env) compareNSX(c *runCase, o *runOutcome) {
 	}
 }
 
+var reExpectErr = regexp.MustCompile(`(?m)': (expect: [^\n]*)$`)
+
 func (e *c17Env) compareSSH(c *runCase, o *runOutcome) {
-	// every session log is device output, in order: login ++ config ++ change is a prefix of the
+	// (a) every session log is device output, in order: login ++ config ++ change is a prefix of the
 	// normalised device output (the .change log of an unchanged device is one DoLog line)
 	norm := unhx(e.drv.Ask("sshlog\t" + hx(o.simOut)))
-	logs := o.files["policies/p1/log/router.login"] + o.files["policies/p1/log/router.config"]
+	login, config := o.files["policies/p1/log/router.login"], o.files["policies/p1/log/router.config"]
 	chg := o.files["policies/p1/log/router.change"]
+	logs := login + config
 	if chg != "No changes applied\n" {
 		logs += chg
 	}
 	e.res.TracesVsImpl++
 	if !strings.HasPrefix(norm, logs) {
 		e.res.Disagree("c17 run SSH session logs are a prefix of the device output", c, logs, norm)
+	}
+	// (b) step by step: the dialogue programs of the model are run against the segments the simulated
+	// device wrote between its reads; sends, the content of every log file and the abort line must agree
+	var segs, reads []string
+	cur, silent, pending := "", false, false
+	flush := func() {
+		k := "f:"
+		if silent {
+			k = "p:" // written (or rather: not written) after the device fell silent
+		}
+		segs = append(segs, k+hx(cur))
+		cur = ""
+	}
+	for _, line := range strings.Split(o.simTl, "\n") {
+		switch {
+		case strings.HasPrefix(line, "W "):
+			cur += unhx(line[2:])
+		case strings.HasPrefix(line, "R "):
+			flush()
+			silent = silent || pending
+			if line[2:] == "PWOK" {
+				reads = append(reads, hx(c.Pass))
+			} else {
+				reads = append(reads, line[2:])
+			}
+		case line == "S":
+			pending = true
+		}
+	}
+	if cur != "" || silent {
+		flush()
+	}
+	runlog := o.runlog(c)
+	var errLines []string
+	for _, l := range markerLines(runlog) {
+		if strings.HasPrefix(l, "ERROR>>> ") {
+			errLines = append(errLines, strings.TrimPrefix(l, "ERROR>>> "))
+		}
+	}
+	errText := ""
+	if m := reExpectErr.FindStringSubmatch(runlog); m != nil {
+		errText = m[1]
+	}
+	approve := c.Cmd == "do-approve approve" || c.Cmd == "drc" || c.Cmd == "drc -u"
+	applies := approve && c.Variant%2 == 1
+	j := func(l []string) string {
+		if len(l) == 0 {
+			return "-"
+		}
+		return strings.Join(l, ",")
+	}
+	b2 := map[bool]string{true: "1", false: "0"}
+	ans := e.drv.Ask(strings.Join([]string{"sshsess", strings.ToLower(c.Dev), hx(c.Pass), hx("router"), hx("NetSPoC"), hx(errText),
+		j(segs), b2[applies], j(reads), hx(strings.Join(errLines, "\n"))}, "\t"))
+	m, ok := parseSinks(ans)
+	if !ok {
+		e.res.Disagree("c17 run SSH steps (driver)", c, "", ans)
+		return
+	}
+	finished := len(m["finished"]) == 1 && m["finished"][0] == "1"
+	wantChange := strings.Join(m["change"], "")
+	if approve && finished && !applies {
+		wantChange = "No changes applied\n"
+	}
+	var modelLines []string
+	for _, p := range m["sends"] {
+		modelLines = append(modelLines, strings.Split(strings.TrimSuffix(p+"\n", "\n"), "\n")...)
+	}
+	var simReads []string
+	for _, r := range reads {
+		simReads = append(simReads, unhx(r))
+	}
+	sendsOK := len(modelLines) >= len(simReads) && len(modelLines)-len(simReads) <= 2
+	for i := 0; sendsOK && i < len(simReads); i++ {
+		sendsOK = modelLines[i] == simReads[i]
+	}
+	var realErr []string
+	for _, l := range errLines {
+		realErr = append(realErr, "ERROR>>> "+l)
+	}
+	impl := "login:\n" + login + "\nconfig:\n" + config + "\nchange:\n" + chg + "\nerrors:\n" + strings.Join(realErr, "\n") +
+		"\nreads:\n" + strings.ReplaceAll(strings.Join(simReads, "\n"), c.Pass, "<PASSWORD>")
+	model := "login:\n" + strings.Join(m["login"], "") + "\nconfig:\n" + strings.Join(m["config"], "") + "\nchange:\n" + wantChange +
+		"\nerrors:\n" + strings.Join(m["runlog"], "\n") + "\nreads:\n"
+	if sendsOK {
+		model += strings.ReplaceAll(strings.Join(simReads, "\n"), c.Pass, "<PASSWORD>")
+	} else {
+		model += strings.ReplaceAll(strings.Join(modelLines, "\n"), c.Pass, "<PASSWORD>") + "\n(sends of the model)"
+	}
+	e.res.TracesVsImpl++
+	e.res.Count(fmt.Sprintf("ssh-steps:%s:finished=%v", c.Dev, finished))
+	if impl != model {
+		e.res.Disagree("c17 run SSH steps (sends, logs per file, abort line)", c, impl, model)
 	}
 }
 
@@ -1243,6 +1374,11 @@ func (e *c17Env) wholeRuns() {
 				run(&runCase{Dev: dev, Cmd: cmd, FaultAt: -1, Variant: v})
 			}
 			run(&runCase{Dev: dev, Cmd: cmd, FaultAt: -1, Fault: "wrongpass"})
+			for fl := 1; fl <= 3; fl++ {
+				if thorough || (fl+ci)%2 == 0 {
+					run(&runCase{Dev: dev, Cmd: cmd, FaultAt: -1, Variant: 2*fl + ci%2})
+				}
+			}
 			for pos := 0; pos < nread; pos++ {
 				if thorough || (pos+ci)%5 == 0 {
 					run(&runCase{Dev: dev, Cmd: cmd, FaultAt: pos, Fault: "close", Variant: 1})
@@ -1258,7 +1394,7 @@ func (e *c17Env) wholeRuns() {
 		devs := []string{"PAN-OS", "NSX", "ASA", "IOS", "Linux"}
 		for i := 0; i < 150; i++ {
 			dev := Pick(rng, devs)
-			c := &runCase{Dev: dev, Cmd: Pick(rng, runCmds), FaultAt: rng.Intn(12) - 2, Variant: rng.Intn(4)}
+			c := &runCase{Dev: dev, Cmd: Pick(rng, runCmds), FaultAt: rng.Intn(12) - 2, Variant: rng.Intn(8)}
 			if c.FaultAt < 0 {
 				c.FaultAt = -1
 			} else if devSSH[dev] {
